@@ -1,8 +1,8 @@
 // Correspondence harness for C09 (polynomial factorisation / irreducibility / primitivity over GF(q)).
 // Calls the real Poly1FactorDom code in-process.  One line per case:
 //     <op> <dom> <p> <k> <irr> <args...> = <results...>
-//   dom  : m = Modular<int32_t>(p) (k = 1, irr = 0) ; g = GFqDom<int64_t>(p,k) (irr = p-adic code of the modulus the
-//          running code chose, as reported by irreducible())
+//   dom  : m = Modular<int32_t>(p), l = Modular<int64_t>(p), i = Modular<Integer>(p) (k = 1, irr = 0) ;
+//          g = GFqDom<int64_t>(p,k) (irr = p-adic code of the modulus the running code chose, as reported by irreducible())
 //   field elements travel as p-adic codes (hex) of their polynomial-basis representation, polynomials as
 //   `c0,c1,...,cn` (little endian, exactly the stored vector, no normalisation) or `z` for the empty vector.
 //   ops  : irr P = b            is_irreducible            irr2 P = b        is_irreducible2
@@ -13,6 +13,10 @@
 //          rir n = R            random_irreducible        cir n = R         creux_random_irreducible
 //          xir n = R            ixe_irreducible           xi2 n = R         ixe_irreducible2
 //          rpr n = P R          random_prim_root
+//          irrM / irr2M / czfM  the overloads taking MOD explicitly, called with MOD = residu() ; czfF = factor(factors, exp, P)
+//          czf2 P1 P2 = L1 | L12  two CZfactor calls accumulating into the SAME lists (L1 after the first, L12 after the second)
+//   big fields (q^n >= 2^64): a trailing argument `pl=r1,r2,...` carries the distinct primes of q^n - 1 (hard-coded here,
+//   re-verified by the driver: each prime by trial division, complete factorisation of the group order)
 // With argv = tier seed the harness generates its own cases; otherwise it reads `op dom p k irr args` lines from stdin.
 #include "proto.h"
 #include <givaro/gfq.h>
@@ -61,6 +65,8 @@ struct Runner {            // type-erased interface over the two coefficient dom
     uint64_t p, k, q, irr; char dom;
     virtual ~Runner() {}
     virtual std::string run(const std::string& op, const std::vector<std::string>& a) = 0;
+    virtual CPoly vmul(const CPoly& a, const CPoly& b) = 0;                              // generation only
+    virtual CPoly vpowmod(const CPoly& a, const Integer& e, const CPoly& f) = 0;         // generation only
     std::string prefix(const std::string& op) const {
         return op + " " + std::string(1, dom) + " " + vp::hex_ull(p) + " " + vp::hex_ull(k) + " " + vp::hex_ull(irr);
     }
@@ -69,13 +75,35 @@ struct Runner {            // type-erased interface over the two coefficient dom
 template <class Field> struct Codec;
 template <> struct Codec<Modular<int32_t>> {
     typedef Modular<int32_t> F;
+    static const bool table = false;
     static F make(uint64_t p, uint64_t) { return F((int32_t)p); }
     static uint64_t irr(const F&) { return 0; }
+    static void from(const F& f, F::Element& e, uint64_t c) { f.init(e, (int64_t)c); }
+    static uint64_t to(const F& f, const F::Element& e) { uint64_t c; f.convert(c, e); return c; }
+};
+template <> struct Codec<Modular<int64_t>> {
+    typedef Modular<int64_t> F;
+    static const bool table = false;
+    static F make(uint64_t p, uint64_t) { return F((int64_t)p); }
+    static uint64_t irr(const F&) { return 0; }
+    static void from(const F& f, F::Element& e, uint64_t c) { f.init(e, (int64_t)c); }
+    static uint64_t to(const F& f, const F::Element& e) { uint64_t c; f.convert(c, e); return c; }
+};
+template <> struct Codec<Modular<Integer>> {
+    typedef Modular<Integer> F;
+    static const bool table = false;
+    static F make(uint64_t p, uint64_t) { return F(Integer(p)); }
+    static uint64_t irr(const F&) { return 0; }
+    static void from(const F& f, F::Element& e, uint64_t c) { f.init(e, Integer(c)); }
+    static uint64_t to(const F& f, const F::Element& e) { Integer c; f.convert(c, e); return (uint64_t)c; }
 };
 template <> struct Codec<GFqDom<int64_t>> {
     typedef GFqDom<int64_t> F;
+    static const bool table = true;
     static F make(uint64_t p, uint64_t k) { return F(p, k); }
     static uint64_t irr(const F& f) { return f.exponent() > 1 ? (uint64_t)f.irreducible() : 0; }   // not set by the constructor for k = 1
+    static void from(const F&, F::Element&, uint64_t) {}
+    static uint64_t to(const F& f, const F::Element& e) { uint64_t c; f.convert(c, e); return c; }
 };
 
 template <class Field>
@@ -89,26 +117,59 @@ struct RunnerT : Runner {
     RunnerT(char dm, uint64_t p_, uint64_t k_, uint64_t seed)
         : F(Codec<Field>::make(p_, k_)), D(F, Indeter("X"), GivRandom(seed ? seed : 1)) {
         dom = dm; p = p_; k = k_; q = ipow(p_, (unsigned)k_); irr = Codec<Field>::irr(F);
-        fromCode.resize(q);
-        std::vector<char> seen(q, 0);
-        if (dm == 'm') {
-            for (uint64_t c = 0; c < q; ++c) { F.init(fromCode[c], (int64_t)c); seen[c] = 1; }
-        } else {
+        if (Codec<Field>::table) {
+            fromCode.resize(q);
+            std::vector<char> seen(q, 0);
             for (uint64_t e = 0; e < q; ++e) {      // every element index of the Zech-logarithm representation
                 Elt x = (Elt)e;
-                uint64_t c; F.convert(c, x);
+                uint64_t c = Codec<Field>::to(F, x);
                 if (c < q) { fromCode[c] = x; seen[c] = 1; }
             }
+            for (uint64_t c = 0; c < q; ++c) if (!seen[c]) { fprintf(stderr, "codec: code %llu not reached\n", (unsigned long long)c); exit(3); }
         }
-        for (uint64_t c = 0; c < q; ++c) if (!seen[c]) { fprintf(stderr, "codec: code %llu not reached\n", (unsigned long long)c); exit(3); }
     }
-    uint64_t code(const Elt& e) const { uint64_t c; F.convert(c, e); return c; }
-    Poly toPoly(const CPoly& P) const { Poly R; R.resize(P.size()); for (size_t i = 0; i < P.size(); ++i) R[i] = fromCode.at(P[i] % q); return R; }
+    Elt elt(uint64_t c) const {
+        if (Codec<Field>::table) return fromCode.at(c % q);
+        Elt e; Codec<Field>::from(F, e, c % q); return e;
+    }
+    uint64_t code(const Elt& e) const { return Codec<Field>::to(F, e); }
+    Poly toPoly(const CPoly& P) const { Poly R; R.resize(P.size()); for (size_t i = 0; i < P.size(); ++i) R[i] = elt(P[i]); return R; }
     CPoly toC(const Poly& P) const { CPoly R(P.size()); for (size_t i = 0; i < P.size(); ++i) R[i] = code(P[i]); return R; }
     std::string sh(const Poly& P) const { return show(toC(P)); }
 
+    CPoly vmul(const CPoly& a, const CPoly& b) override {
+        if (a.empty() || b.empty()) return CPoly();
+        Poly A = toPoly(a), B = toPoly(b), C; D.mul(C, A, B); return toC(C);
+    }
+    CPoly vpowmod(const CPoly& a, const Integer& e, const CPoly& f) override {
+        Poly A = toPoly(a), Fm = toPoly(f), W; D.powmod(W, A, e, Fm); return toC(W);
+    }
+    std::string showFactors(const std::vector<Poly>& Lf, const std::vector<uint64_t>& Le) const {
+        if (Lf.size() != Le.size()) return "SIZES";
+        std::string r;
+        for (size_t i = 0; i < Lf.size(); ++i) { if (i) r += ' '; r += sh(Lf[i]) + ":" + vp::hex_ull(Le[i]); }
+        if (Lf.empty()) r = "none";
+        return r;
+    }
+
     std::string run(const std::string& op, const std::vector<std::string>& a) override {
         std::string r;
+        if (op == "irrM") { Poly P = toPoly(parse(a.at(0))); return D.is_irreducible(P, F.residu()) ? "1" : "0"; }
+        if (op == "irr2M") { Poly P = toPoly(parse(a.at(0))); return D.is_irreducible2(P, F.residu()) ? "1" : "0"; }
+        if (op == "czfM" || op == "czfF") {
+            Poly P = toPoly(parse(a.at(0)));
+            std::vector<Poly> Lf; std::vector<uint64_t> Le;
+            if (op == "czfM") D.CZfactor(Lf, Le, P, F.residu()); else D.factor(Lf, Le, P);
+            return showFactors(Lf, Le);
+        }
+        if (op == "czf2") {
+            Poly P1 = toPoly(parse(a.at(0))), P2 = toPoly(parse(a.at(1)));
+            std::vector<Poly> Lf; std::vector<uint64_t> Le;
+            D.CZfactor(Lf, Le, P1);
+            r = showFactors(Lf, Le) + " | ";
+            D.factor(Lf, Le, P2);                    // the accumulating call form (forwards to CZfactor)
+            return r + showFactors(Lf, Le);
+        }
         if (op == "irr") { Poly P = toPoly(parse(a.at(0))); return D.is_irreducible(P) ? "1" : "0"; }
         if (op == "irr2") { Poly P = toPoly(parse(a.at(0))); return D.is_irreducible2(P) ? "1" : "0"; }
         if (op == "czf") {
@@ -156,6 +217,8 @@ static Runner& runner(char dom, uint64_t p, uint64_t k) {
     if (it != g_runners.end()) return *it->second;
     Runner* r;
     if (dom == 'm') r = new RunnerT<Modular<int32_t>>('m', p, 1, g_seed);
+    else if (dom == 'l') r = new RunnerT<Modular<int64_t>>('l', p, 1, g_seed);
+    else if (dom == 'i') r = new RunnerT<Modular<Integer>>('i', p, 1, g_seed);
     else r = new RunnerT<GFqDom<int64_t>>('g', p, k, g_seed);
     g_runners[key].reset(r);
     return *r;
@@ -171,7 +234,7 @@ static void on_alarm(int) {
     if (write(1, " = TIMEOUT\n", 11) < 0) {}
     _exit(0);
 }
-static void emit_case(Runner& R, const std::string& op, const std::vector<std::string>& args) {
+static std::string emit_case(Runner& R, const std::string& op, const std::vector<std::string>& args) {
     std::string line = R.prefix(op);
     for (auto& s : args) line += " " + s;
     std::string res;
@@ -183,6 +246,7 @@ static void emit_case(Runner& R, const std::string& op, const std::vector<std::s
     fputs(line.c_str(), stdout);
     ++g_count;
     fflush(stdout);      // a crash is attributed to the case after the last complete line
+    return res;
 }
 // a case that may crash or loop forever runs in a child process under a watchdog: `= TIMEOUT` / `= CRASH` are outcomes
 static void emit_case_guarded(Runner& R, const std::string& op, const std::vector<std::string>& args, unsigned seconds) {
@@ -210,16 +274,7 @@ static void emit_case_guarded(Runner& R, const std::string& op, const std::vecto
 // generators (arithmetic on codes is done through the library's *field* only for products; the checker is independent)
 struct Gen {
     Runner& R; vp::Rng& rng;
-    template <class Field> static CPoly mulT(RunnerT<Field>& T, const CPoly& a, const CPoly& b) {
-        typename RunnerT<Field>::Poly A = T.toPoly(a), B = T.toPoly(b), C;
-        T.D.mul(C, A, B);
-        return T.toC(C);
-    }
-    CPoly mul(const CPoly& a, const CPoly& b) {
-        if (a.empty() || b.empty()) return CPoly();
-        if (R.dom == 'm') return mulT(static_cast<RunnerT<Modular<int32_t>>&>(R), a, b);
-        return mulT(static_cast<RunnerT<GFqDom<int64_t>>&>(R), a, b);
-    }
+    CPoly mul(const CPoly& a, const CPoly& b) { return R.vmul(a, b); }
     CPoly pw(const CPoly& a, unsigned e) { CPoly r{1}; while (e--) r = mul(r, a); return r; }
     CPoly randMonic(unsigned d) { CPoly P(d + 1); for (unsigned i = 0; i < d; ++i) P[i] = rng.below(R.q); P[d] = 1; return P; }
     CPoly randPoly(unsigned d) { CPoly P(d + 1); for (unsigned i = 0; i < d; ++i) P[i] = rng.below(R.q); P[d] = 1 + rng.below(R.q - 1); return P; }
@@ -254,7 +309,7 @@ static void generate(const std::string& tier, uint64_t seed) {
     bool th = (tier == "thorough");
     vp::Rng rng(seed * 0x9E3779B97F4A7C15ULL + 77);
     const FieldSpec fields[] = {
-        {'g', 2, 1, 7, 10}, {'g', 3, 1, 4, 6}, {'g', 2, 2, 3, 5}, {'g', 5, 1, 3, 5}, {'g', 7, 1, 2, 4}, {'g', 3, 2, 1, 3},
+        {'g', 2, 1, 7, 10}, {'g', 3, 1, 4, 6}, {'g', 2, 2, 3, 5}, {'g', 5, 1, 3, 5}, {'g', 7, 1, 3, 4}, {'g', 3, 2, 1, 3},
         {'g', 2, 3, 2, 3}, {'m', 2, 1, 6, 8}, {'m', 3, 1, 4, 5}, {'m', 5, 1, 2, 4}, {'m', 7, 1, 2, 3}, {'m', 11, 1, 1, 2},
         {'g', 11, 1, 1, 2}, {'g', 13, 1, 1, 2}, {'m', 13, 1, 1, 2}, {'g', 5, 2, 1, 1}, {'g', 2, 4, 1, 2}, {'g', 3, 3, 1, 1},
     };
@@ -318,6 +373,41 @@ static void generate(const std::string& tier, uint64_t seed) {
                 if (P.size() <= 40)
                     for (const char* op : {"irr", "irr2", "czf", "sqf"}) emit_case(R, op, {show(P)});
             }
+        }
+        // (e) products of k distinct irreducibles of equal degree d with k*d in {4,8,9,12,16,18} (degrees divisible by a
+        //     square / with several prime divisors: where Rabin-style tests that skip a cofactor go wrong)
+        {
+            static const unsigned KD[][2] = {{2,2},{4,1},{2,4},{4,2},{8,1},{3,3},{9,1},{2,6},{3,4},{4,3},{6,2},{12,1},
+                                             {2,8},{4,4},{8,2},{16,1},{2,9},{3,6},{6,3},{9,2},{18,1}};
+            for (auto& kd : KD) {
+                unsigned kk = kd[0], dg = kd[1];
+                for (unsigned rep = 0; rep < (th ? 4u : 1u); ++rep) {
+                    std::set<CPoly> fs;
+                    for (int t = 0; t < 60 && fs.size() < kk; ++t) fs.insert(G.randIrr(dg));
+                    if (fs.size() < kk) break;                       // fewer than k irreducibles of that degree exist
+                    CPoly P{1};
+                    for (auto& f : fs) P = G.mul(P, f);
+                    emit_case(R, "irr", {show(P)});
+                    emit_case(R, "irr2", {show(P)});
+                    if (rep == 0) { emit_case(R, "irrM", {show(P)}); emit_case(R, "irr2M", {show(P)}); }
+                    if (R.p != 2 || ipow(R.q, dg) <= 300) emit_case(R, rep ? "czf" : "czfM", {show(P)});
+                }
+            }
+        }
+        // (f) two factorisations accumulated into the same lists (CZfactor then factor(factors, exp, P))
+        for (unsigned rep = 0; rep < (th ? 12u : 4u); ++rep) {
+            auto mk = [&]() {
+                CPoly P{1 + rng.below(R.q - 1)};
+                unsigned nf = 1 + (unsigned)rng.below(3);
+                for (unsigned i = 0; i < nf; ++i) {
+                    unsigned m = 1 + (unsigned)rng.below(R.p > 2 ? 2 : 1);      // multiplicities < p (outside C09-yun-charp)
+                    P = G.mul(P, G.pw(G.randIrr(1 + (unsigned)rng.below(3)), m));
+                }
+                return P;
+            };
+            CPoly P1 = mk(), P2 = mk();
+            emit_case(R, "czf2", {show(P1), show(P2)});
+            emit_case(R, "czfF", {show(P2)});
         }
         // (d) X^p - a, X^(q^j) - X, X^n - 1
         for (uint64_t a = 0; a < R.q && a < 6; ++a) {
@@ -385,6 +475,103 @@ static void generate(const std::string& tier, uint64_t seed) {
             emit_case(R, "rpr", {sn});
         }
         fflush(stdout);
+    }
+    // --- big fields: q^n >= 2^64 (group order beyond every machine word); the primes of q^n - 1 travel with the line
+    {
+        struct Big { char dom; uint64_t p, k; unsigned n; const char* primes; const char* fixedF; bool quick; };
+        static const Big bigs[] = {
+            // 2^65-1 = 31 * 8191 * 145295143558111 ; X^65 + X^18 + 1
+            {'g', 2, 1, 65, "1f,1fff,8425296b5bdf", "1,0,0,0,0,0,0,0,0,0,0,0,0,0,0,0,0,0,1,0,0,0,0,0,0,0,0,0,0,0,0,0,0,0,0,0,0,0,0,0,0,0,0,0,0,0,0,0,0,0,0,0,0,0,0,0,0,0,0,0,0,0,0,0,0,1", true},
+            {'l', 2, 1, 65, "1f,1fff,8425296b5bdf", nullptr, false},
+            {'i', 2, 1, 65, "1f,1fff,8425296b5bdf", nullptr, false},
+            // 65537^4 - 1
+            {'l', 65537, 1, 4, "2,3,5,b,14b,21e9,c145", nullptr, true},
+            {'i', 65537, 1, 4, "2,3,5,b,14b,21e9,c145", nullptr, true},
+            {'g', 65537, 1, 4, "2,3,5,b,14b,21e9,c145", nullptr, false},
+            // (2^31-1)^3 - 1
+            {'l', 2147483647ULL, 1, 3, "2,3,7,b,1f,97,14b,1f8fb21b,ad09f2b1", nullptr, true},
+            {'i', 2147483647ULL, 1, 3, "2,3,7,b,1f,97,14b,1f8fb21b,ad09f2b1", nullptr, false},
+            // 4^33 - 1 = 2^66 - 1
+            {'g', 2, 2, 33, "3,7,17,43,59,2ab,5179,925b7", nullptr, false},
+            // 3^41 - 1
+            {'g', 3, 1, 41, "2,53,268ec1,143eaa56ab", nullptr, false},
+            {'l', 3, 1, 41, "2,53,268ec1,143eaa56ab", nullptr, false},
+            // 2^67 - 1 = 193707721 * 761838257287
+            {'g', 2, 1, 67, "b8bbec9,b161194487", nullptr, false},
+            // 2^128 - 1
+            {'g', 2, 1, 128, "3,5,11,101,281,10001,42f01,663d81,3d30f19cd101", nullptr, false},
+            // 5^28 - 1, 7^24 - 1, 13^18 - 1, 1009^7 - 1, 16^17 - 1, 9^21 - 1
+            {'g', 5, 1, 28, "2,3,d,1d,1c1,4c4b,dfe0289", nullptr, false},
+            {'l', 7, 1, 24, "2,3,5,d,13,2b,49,b5,c1,199,4b1", nullptr, false},
+            {'i', 13, 1, 18, "2,3,7,13,3d,9d,10f,3a9,188fc5", nullptr, false},
+            {'l', 1009, 1, 7, "2,3,7,1d,4d7931,3d159055", nullptr, false},
+            {'g', 2, 4, 17, "3,5,89,3b9,66cd,aaab,1ffff", nullptr, false},
+            {'g', 3, 2, 21, "2,7,d,2b,223,445,8dd,59dd9", nullptr, false},
+        };
+        for (const Big& b : bigs) {
+            if (!th && !b.quick) continue;
+            Runner& R = runner(b.dom, b.p, b.k);
+            Gen G{R, rng};
+            std::string pl = std::string("pl=") + b.primes;
+            std::string sn = vp::hex_ull(b.n);
+            // the modulus: the given one, else what the library's own search returns (the driver checks degree and irreducibility)
+            std::string sF = b.fixedF ? std::string(b.fixedF) : emit_case(R, "cir", {sn, pl});
+            if (sF == "EXC" || sF == "TIMEOUT") continue;
+            CPoly Fm = parse(sF);
+            for (const char* op : {"irr", "irr2", "irrM", "irr2M"}) emit_case(R, op, {sF});
+            // reducible polynomials of the same degree: two factors, and equal-degree products d | n
+            {
+                unsigned a = b.n / 2;
+                CPoly P = G.mul(G.randIrr(a), G.randIrr(b.n - a));
+                for (const char* op : {"irr", "irr2", "irrM", "irr2M"}) emit_case(R, op, {show(P)});
+                for (unsigned d = 2; d < b.n; ++d) {
+                    if (b.n % d || d > 16) continue;
+                    CPoly Q{1};
+                    for (unsigned i = 0; i < b.n / d; ++i) Q = G.mul(Q, G.randIrr(d));
+                    emit_case(R, "irr", {show(Q)});
+                    emit_case(R, "irr2", {show(Q)});
+                }
+                if (R.p != 2) { emit_case(R, "czf", {show(P)}); emit_case(R, "czfM", {show(P)}); }
+            }
+            // the exact group order and its primes
+            Integer N(1);
+            for (unsigned i = 0; i < b.n; ++i) N *= Integer(R.q);
+            N -= 1;
+            std::vector<Integer> primes;
+            { CPoly tmp = parse(b.primes); for (uint64_t r : tmp) primes.push_back(Integer(r)); }
+            // a primitive element as found by the library, then elements of known order derived from it
+            std::string sg = emit_case(R, "gpr", {sF, pl});
+            emit_case_guarded(R, "grp", {sF, pl}, 60);
+            if (sg != "EXC" && sg != "TIMEOUT") {
+                CPoly g = parse(sg);
+                std::vector<CPoly> elts = {g};
+                for (const Integer& r : primes) {
+                    elts.push_back(R.vpowmod(g, N / r, Fm));          // order r
+                    elts.push_back(R.vpowmod(g, r, Fm));              // order N / r
+                }
+                if (primes.size() >= 2) elts.push_back(R.vpowmod(g, primes[0] * primes.back(), Fm));
+                elts.push_back(R.vpowmod(g, Integer(7919), Fm));      // primitive again unless 7919 | N
+                if (b.n > 16 && (!th || b.n > 100) && elts.size() > 5) elts.resize(5);   // g, order r1, N/r1, r2, N/r2
+                for (auto& e : elts) {
+                    emit_case(R, "ipr", {show(e), sF, pl});
+                    emit_case(R, "ord", {show(e), sF, pl});
+                }
+            }
+            std::vector<CPoly> misc = {CPoly{0, 1}, CPoly{1}, G.mul(Fm, CPoly{1, 1})};
+            if ((th && b.n <= 100) || b.n <= 16) { misc.push_back(CPoly{1, 1}); misc.push_back(G.randPoly(b.n - 1)); misc.push_back(G.randPoly(b.n + 1)); }
+            for (const CPoly& e : misc) {
+                emit_case(R, "ipr", {show(e), sF, pl});
+                emit_case(R, "ord", {show(e), sF, pl});
+            }
+            // the searches at this degree
+            emit_case_guarded(R, "rir", {sn, pl}, 60);
+            if (R.q <= 16) {       // for large q the scans of ixe_irreducible enumerate q (binomials: X is never primitive) then q^2 candidates
+                emit_case_guarded(R, "xir", {sn, pl}, th ? 120 : 40);
+                emit_case_guarded(R, "xi2", {sn, pl}, th ? 120 : 40);
+            }
+            emit_case_guarded(R, "rpr", {sn, pl}, th ? 120 : 40);
+            fflush(stdout);
+        }
     }
     // --- cases that crash or do not terminate on some trees: each in a child process under a watchdog
     {
